@@ -520,4 +520,52 @@ theorem C12_tracker_order_only {f : Int → Int} (hf : StrictMono f) (h : List R
 
 example : StrictMono (fun a => 5 * a - 2) := by intro a b h; show 5 * a - 2 < 5 * b - 2; omega
 
+theorem presentAll_append (t : Tracker) (xs ys : List Reg) : (t.presentAll xs).presentAll ys = t.presentAll (xs ++ ys) := by
+  simp [Tracker.presentAll, List.foldl_append]
+
+/-- ONE tracker through several searches (a warm start, the same algorithm object searched twice, individuals evaluated through the
+tracker beforehand): the hypothesis "the tracker is fresh" of `C12_search_returns_best` is not needed.  For a tracker that has already
+been presented the history `h0`, when the loop stops the tracker has seen `h0` followed by what this search presented, and `search()`
+returns an individual of maximal aggregate among ALL of them -- "every individual evaluated so far" counts from the tracker's first
+evaluation, not from the start of the last search. -/
+theorem C12_search_returns_best_warm (a : Algo) (b : Budget) (t00 : Tracker) (h0 : List Reg) (init : Iter) (iters : Nat → Iter)
+    (fuel m : Nat) (s : SearchState) (res : Option Reg)
+    (ht0 : t00 = .single none ∨ t00 = .multi [])
+    (hrun : runSearch a b (t00.presentAll h0) init iters fuel = some (m, s, res)) :
+    s.tracker = t00.presentAll (h0 ++ presented a init iters m) ∧
+    (h0 ++ presented a init iters m = [] → res = none) ∧
+    (h0 ++ presented a init iters m ≠ [] →
+      ∃ r, res = some r ∧ r ∈ h0 ++ presented a init iters m ∧ ∀ x ∈ h0 ++ presented a init iters m, x.agg ≤ r.agg) := by
+  unfold runSearch at hrun
+  cases hs : search b iters fuel 0 (a.start (t00.presentAll h0) init) with
+  | none => simp [hs] at hrun
+  | some r =>
+    obtain ⟨k, s'⟩ := r
+    simp only [hs, Option.map_some, Option.some.injEq, Prod.mk.injEq] at hrun
+    obtain ⟨rfl, rfl, rfl⟩ := hrun
+    obtain ⟨m, hk, _, hst, _, _⟩ := (search_eq_some_iff b iters fuel 0 _ k s').mp hs
+    have hkm : k = m := by omega
+    subst hkm
+    have htr : s'.tracker = (t00.presentAll h0).presentAll (presented a init iters k) := by
+      rw [hst, stateFrom_tracker]
+      unfold presented Algo.start
+      cases a <;> simp [SearchState.step, Tracker.presentAll]
+    rw [presentAll_append] at htr
+    refine ⟨htr, ?_, ?_⟩
+    · intro hnil
+      rw [htr, hnil]
+      rcases ht0 with rfl | rfl <;> rfl
+    · intro hne
+      rw [htr]
+      rcases ht0 with rfl | rfl
+      · rw [presentAll_single]
+        exact C12_best_is_max _ hne
+      · rw [presentAll_multi]
+        obtain ⟨hf, hall⟩ := C12_multi_front_attains_max _ hne
+        cases hfr : (mRun [] (h0 ++ presented a init iters k)).1 with
+        | nil => exact absurd hfr hf
+        | cons x xs =>
+          have := hall x (by rw [hfr]; exact List.mem_cons_self)
+          exact ⟨x, rfl, this.1, this.2⟩
+
 end GEVerif.C12
